@@ -370,7 +370,7 @@ PROPS["C03"] = {
              "with random (also invalid) unit / mode / increment / precision / overflow / disambiguation options, durations from the C09 hostile generator, relativeTo none / plain / "
              "zoned, zones served by the harness's TableProvider incl. a table of 5000 transitions one second apart; (b) harvest: the workloads of every other monitor (quick: scale "
              "0.2; thorough: full, plus C16) re-run in the chk build; every panic and every ErrorKind::Assert recorded by the call wrappers is a violation keyed by panic location + "
-             "message with digits masked. Counted per scenario; a broken call is replayable through (workload, seed, shard, case index)"),
+             "message with digits masked. Counted per scenario; non-trivial = a storm case in which at least three calls returned a value (distinct by case seed); a broken call is replayable through (workload, seed, shard, case index)"),
     "assumptions": ["a panic inside a dependency reached through the public API counts (the property is about the public operation); such locations are listed as known findings when the repository cannot repair them",
                     "unbounded loops are caught only by the per-run watchdog (reported inconclusive, never as a violation)"],
     "manifest": {
@@ -500,4 +500,16 @@ NOT_CLAIMED = {}
 
 
 def setup(ctx):
-    return 0
+    """Exports the zone tables (self-verifying against Python zoneinfo) and runs the reference models' own unit tests."""
+    import os, subprocess
+    for pre in (export_zones, export_far_zones):
+        err = pre(ctx)
+        if err:
+            ctx["log"](f"zone export failed: {err}")
+            return 3
+    env = dict(ctx["env"])
+    r = subprocess.run(["cargo", "test", "--offline", "--quiet", "--profile", "chk"], cwd=os.path.join(ctx["verif"], "harness"), env=env,
+                       stdout=subprocess.PIPE, stderr=subprocess.STDOUT, text=True)
+    tail = "\n".join(l for l in r.stdout.splitlines() if l.startswith("test result") or "FAILED" in l or "panicked" in l)
+    ctx["log"](f"reference-model self tests: {tail or r.stdout[-400:]}")
+    return 0 if r.returncode == 0 else 3
